@@ -1418,7 +1418,15 @@ rfbBool rfbSendDirContent(rfbClientPtr cl, int length, char *buffer)
         return rfbSendFileTransferMessage(cl, rfbDirPacket, rfbADirectory, 0, 0, NULL);
 
     /* send back the path name (necessary for links) */
-    if (rfbSendFileTransferMessage(cl, rfbDirPacket, rfbADirectory, 0, length, buffer)==FALSE) return FALSE;
+    if (rfbSendFileTransferMessage(cl, rfbDirPacket, rfbADirectory, 0, length, buffer)==FALSE) {
+        /* do not leak the directory stream */
+#ifdef WIN32
+        FindClose(findHandle);
+#else
+        closedir(dirp);
+#endif
+        return FALSE;
+    }
 
 #ifdef WIN32
     while (findHandle != INVALID_HANDLE_VALUE)
